@@ -88,6 +88,7 @@ def decision_table(report, rule, finfo, atoms, classify, spec, consistent=None,
   n_val = 0
   n_paths = 0
   bad = 0
+  seen_cat = {}
   unknown = {}
   for val in enumerate_valuations(atoms, consistent):
     n_val += 1
@@ -98,19 +99,21 @@ def decision_table(report, rule, finfo, atoms, classify, spec, consistent=None,
       err = spec(val, p)
       if err:
         bad += 1
-        if bad <= 3:
-          last = p.steps[-1][0] if p.steps else g.entry
-          tests = [
-              '%s=%s' % (norm(n.ast)[:40], l) for n, l in p.steps
-              if n.kind == 'test'
-          ]
-          report.violation(
-              rule, finfo.qualname,
-              'table:%s' % ','.join(k for k in atoms if val[k]) +
-              '|' + err.split(':')[0],
-              last.ast if last.ast is not None else finfo.node,
-              '%s; valuation {%s}; branch decisions %s' %
-              (err, ', '.join('%s=%s' % (k, val[k]) for k in atoms), tests))
+        cat = err.split(':')[0]
+        if cat in seen_cat:
+          seen_cat[cat] += 1
+          continue
+        seen_cat[cat] = 1
+        last = p.steps[-1][0] if p.steps else g.entry
+        tests = [
+            '%s=%s' % (norm(n.ast)[:40], l) for n, l in p.steps
+            if n.kind == 'test'
+        ]
+        report.violation(
+            rule, finfo.qualname, 'table|' + cat,
+            last.ast if last.ast is not None else finfo.node,
+            '%s; first failing valuation {%s}; branch decisions %s' %
+            (err, ', '.join('%s=%s' % (k, val[k]) for k in atoms), tests))
   report.table(rule, n_val)
   if not bad:
     report.ok(rule, finfo.node,
